@@ -10,7 +10,7 @@ Local Open Scope N_scope.
 Lemma casefold_table_ok : table_ok FoldTable.casefold_table = true.
 Proof. vm_compute. reflexivity. Qed.
 
-(* ---- C03-F2 (repaired): schema  A, A/#  ; text  "A/#/#/x".
+(* ---- C03-F2 (repaired by fix commit 03a83bd; behaviour before it): schema  A, A/#  ; text  "A/#/#/x".
    Before the repair the walk stepped onto the placeholder: short t = "A/#/x", short(short t) = "A/x". *)
 Definition wit_schema : list str := [[65]; [65;47;35]].
 Definition wit_text : str := [65;47;35;47;35;47;120].
@@ -31,7 +31,7 @@ Proof.
   vm_compute. split; intro H; discriminate H.
 Qed.
 
-(* ---- C03-F1 (repaired): schema  Press ; folding with U+00DF -> "ss"; text "Preß/abc".
+(* ---- C03-F1 (repaired by fix commit de8c862; behaviour before it): schema  Press ; folding with U+00DF -> "ss"; text "Preß/abc".
    Before the repair the extension was cut at an index of the folded text: short form "Pressabc". *)
 Definition f1_table : list (N * str) := [(223, [115;115])].
 Definition f1_schema : list str := [[80;114;101;115;115]].
@@ -79,4 +79,40 @@ Definition ex_check : bool :=
   end.
 
 Lemma ex_resolution : ex_check = true.
+Proof. vm_cast_no_check (eq_refl true). Qed.
+
+(* the premises of remainder_verbatim on 8.3.0 *)
+Definition ex_red : str := [80;114;111;112;101;114;116;121;47;83;101;110;115;111;114;121;45;112;114;111;112;101;114;116;121;47;83;101;110;115;111;114;121;45;97;116;116;114;105;98;117;116;101;47;86;105;115;117;97;108;45;97;116;116;114;105;98;117;116;101;47;67;111;108;111;114;47;67;83;83;45;99;111;108;111;114;47;82;101;100;45;99;111;108;111;114;47;82;101;100].
+Definition ex_dur : str := [80;114;111;112;101;114;116;121;47;68;97;116;97;45;112;114;111;112;101;114;116;121;47;68;97;116;97;45;118;97;108;117;101;47;83;112;97;116;105;111;116;101;109;112;111;114;97;108;45;118;97;108;117;101;47;84;101;109;112;111;114;97;108;45;118;97;108;117;101;47;68;117;114;97;116;105;111;110].
+Definition ex_css : str := [80;114;111;112;101;114;116;121;47;83;101;110;115;111;114;121;45;112;114;111;112;101;114;116;121;47;83;101;110;115;111;114;121;45;97;116;116;114;105;98;117;116;101;47;86;105;115;117;97;108;45;97;116;116;114;105;98;117;116;101;47;67;111;108;111;114;47;67;83;83;45;99;111;108;111;114].
+
+Definition is_none {A} (o : option A) : bool := match o with None => true | Some _ => false end.
+
+Definition ex_premises_on (T : table) : bool :=
+  let fold := Schema.fold FoldTable.py_fold in
+  let p1 := [114;69;68;45;99;111;108;111;114;47;82;69;68] in let r1 := [81;122;120;57;47;109;121;32;101;120;116] in
+  let p2 := [116;101;109;112;111;114;97;108;45;86;65;76;85;69;47;100;117;114;97;116;105;111;110] in let r2 := [51;32;109;115] in
+  match create_tag_entry ex_red, create_tag_entry ex_dur, get_tag_forms ex_red, get_tag_forms ex_dur with
+  | Ok e1, Ok e2, Ok (_, f1), Ok (_, f2) =>
+      (* Red: registered, not a value node, the spelling is a case variant of one of its forms *)
+      mem ex_red names_8_3_0 && negb (is_value ex_red) && mem (fold p1) (map fold f1)
+      && no_longer_form FoldTable.py_fold T p1 r1 && is_none (takes_value_child FoldTable.py_fold T e1)
+      && ext_terms_free FoldTable.py_fold T r1
+      && match find_tag_entry FoldTable.py_fold repaired T [] (p1 ++ ch_slash :: r1) [] with
+         | Found e r => str_eqb (e_name e) ex_red && str_eqb r (ch_slash :: r1) | NotFound _ => false end
+      (* Duration: has a '#' child, any value is kept on it *)
+      && mem ex_dur names_8_3_0 && negb (is_value ex_dur) && mem (fold p2) (map fold f2)
+      && no_longer_form FoldTable.py_fold T p2 r2 && negb (is_none (takes_value_child FoldTable.py_fold T e2))
+      && match find_tag_entry FoldTable.py_fold repaired T [] (p2 ++ ch_slash :: r2) [] with
+         | Found e r => str_eqb (e_name e) (ex_dur ++ s_slash_hash) && str_eqb r (ch_slash :: r2)
+         | NotFound _ => false end
+      (* a remainder that continues to a deeper registered form is not an extension *)
+      && negb (no_longer_form FoldTable.py_fold T [99;111;108;111;114;47;67;83;83;45;99;111;108;111;114] [82;101;100;45;99;111;108;111;114;47;82;101;100])
+  | _, _, _, _ => false
+  end.
+
+Definition ex_premises : bool :=
+  match build_table FoldTable.py_fold names_8_3_0 with Ok T => ex_premises_on T | Exn _ => false end.
+
+Lemma ex_premises_ok : ex_premises = true.
 Proof. vm_cast_no_check (eq_refl true). Qed.
